@@ -135,13 +135,15 @@ theorem C10_cts_frame_dispatch (n : Node) (i src dst b1 b2 pgn : Nat) (hs : src 
 
 /-! ## BAM pacing -/
 
-/-- **BAM pacing.** When a poll at time `t1` sends a BAM data packet (`SendPendingTPMessage` with the timer due), then any
-poll at a time `t2` with `t1 ≤ t2 < t1 + 50` changes nothing - in particular sends nothing: consecutive data packets are
-at least 50 ms apart, for both scheduler flavours and whatever the driver does. (The first data packet is at least
-50 ms after the BAM announce in the same way: `C10_bam_first_packet`.) -/
+/-- **BAM pacing.** The interval the library re-arms the BAM timer with is a parameter `bamGap` of the node (the statement only
+says "at least 50 ms"; the pinned tree uses 50, the check reads the value back from the node). For every `bamGap ≥ 50`: when
+a poll at time `t1` sends a BAM data packet (`SendPendingTPMessage` with the timer due), then any poll at a time `t2` with
+`t1 ≤ t2 < t1 + 50` changes nothing - in particular sends nothing: consecutive data packets are at least 50 ms apart, for
+both scheduler flavours and whatever the driver does. (The first data packet is at least 50 ms after the BAM announce in
+the same way: `C10_bam_first_packet`.) -/
 theorem C10_bam_pacing (n : Node) (i t2 : Nat) (hb : (n.tp i).pend.dst = 255) (hp : (n.tp i).pend.pgn ≠ 0)
-    (ht : (n.tp i).timer.isTime n.s.flavor n.s.now = true) (h1 : n.s.now ≤ t2) (h2 : t2 < n.s.now + 50)
-    (h64 : n.s.now + 50 < M64) :
+    (ht : (n.tp i).timer.isTime n.s.flavor n.s.now = true) (hg : 50 ≤ n.bamGap ∧ n.bamGap ≤ 100000)
+    (h1 : n.s.now ≤ t2) (h2 : t2 < n.s.now + 50) (h64 : n.s.now + n.bamGap < M64) :
     pendingTP (atTime (pendingTP n i) t2) i = atTime (pendingTP n i) t2 := by
   obtain ⟨hnow, hfl, hor⟩ := pendingTP_bam_timer n i hb hp ht
   generalize pendingTP n i = n1 at *
@@ -149,8 +151,10 @@ theorem C10_bam_pacing (n : Node) (i t2 : Nat) (hb : (n.tp i).pend.dst = 255) (h
   rcases hor with h0 | htm
   · simp [atTime, h0]
   · have : (n1.tp i).timer.isTime n1.s.flavor t2 = false := by
-      rw [htm, hfl]; exact isTime_fromNow_early _ _ _ _ h1 h2 (by omega) h64
+      rw [htm, hfl]; exact isTime_fromNow_early _ _ _ _ h1 (by omega) hg.2 h64
     simp [atTime, this]
+
+example : 50 ≤ exNode.bamGap ∧ exNode.bamGap ≤ 100000 := by decide
 
 /-- exact bound per flavour: with the 64-bit scheduler (`now > NextTime`, strict) the next data packet is due from
 `t1 + 51` on; with the 32-bit scheduler (`now - NextTime < 2^31`) from `t1 + 50` on, unless `t1 + 50 ≡ 2^32 - 1`
@@ -596,7 +600,7 @@ example : ∃ (a b : Node) (da db : Dev) (m : Msg) (ds : List (Nat × Nat)), 33 
 /-- **End to end (BAM), partial.** Node A hands a transport-flagged message of 9..223 bytes for the global address to
 `SendMsg` on its first device; node B listens (both may have further, idle devices: `Lead`). Both are quiet, A has nothing pending, B has a free receive slot (free slots
 carry no CTS obligation - `FreeMessage` and the constructor reset it) and may hold the message. Schedule as in
-`C10_end_to_end_partial`, but A polls at least 51 ms (and less than 2^31 ms) after its previous poll: the pacing of
+`C10_end_to_end_partial`, but A polls more than `bamGap` ms (≥ 50; and less than 2^31 ms) after its previous poll: the pacing of
 `C10_bam_pacing` then lets exactly one data packet out per poll. After at most 33 rounds of ANY such schedule B's handler has
 been called exactly once with the PGN, A's address, destination 255, the length and exactly the payload; A's transfer is over;
 nothing is in flight, and B never sent a frame (`C10_receiver_bam`). Missing for the full statement: as in
@@ -611,7 +615,8 @@ theorem C10_end_to_end_bam_partial (a b : Node) (da db : Dev) (m : Msg) (ds : Li
     (htp : m.tp = true) (h9 : 9 ≤ m.len) (h223 : m.len ≤ 223) (hdata : m.len ≤ m.data.length)
     (hdst : m.dst = 255) (hlow : m.pgn &&& 0xff = 0) (hp0 : m.pgn ≠ 0) (hp24 : m.pgn < 2^24)
     (hid : n2kToCanId m.prio m.pgn da.source m.dst ≠ 0)
-    (hlen : 33 ≤ ds.length) (hall : ∀ p ∈ ds, 51 ≤ p.2 ∧ p.2 < INT32_MAX) (h64 : a.s.now + totalA ds + 100 < M64) :
+    (hgap : 50 ≤ a.bamGap) (hlen : 33 ≤ ds.length) (hall : ∀ p ∈ ds, a.bamGap + 1 ≤ p.2 ∧ p.2 < INT32_MAX)
+    (h64 : a.s.now + totalA ds + 100 < M64) :
     (sendMsgTP a m (some 0)).2 = true ∧
     ∃ r, r ≤ 33 ∧
       (rounds (ds.take r) ((sendMsgTP a m (some 0)).1, b)).2.out =
@@ -646,7 +651,7 @@ theorem C10_end_to_end_bam_partial (a b : Node) (da db : Dev) (m : Msg) (ds : Li
     (by show 0 < tpPacketCount m.len; omega) (by show tpPacketCount m.len - 0 ≤ 32; omega) (by simp at hlen; omega)
     (fun q hq => hall q (by simp [hq])) (by omega)
   refine ⟨r + 1, by omega, ?_⟩
-  have hfirst' := roundB_first hL a.s.now b.s.now p.1 p.2 hp51 (by omega)
+  have hfirst' := roundB_first hL a.s.now b.s.now p.1 p.2 ⟨by have := hp51.1; omega, hp51.2⟩ (by omega)
   have hpair : (a.upd (txTp a (pendMsg m da) 0 a.s.now 50) a.slots a.out [cmFrame da.source 255 (announceBytes 32 (pendMsg m da))] [], b)
       = ((atTime a a.s.now).upd (txTp a (pendMsg m da) 0 a.s.now 50) a.slots a.out [cmFrame da.source 255 (announceBytes 32 (pendMsg m da))] [],
          (atTime b b.s.now).upd b.tp b.slots [] [] []) := congrArg (Prod.mk _) hb
@@ -663,7 +668,8 @@ theorem C10_end_to_end_bam_partial (a b : Node) (da db : Dev) (m : Msg) (ds : Li
   · simp [doneTp]
   · simp [doneTp]
 
-example : ∃ (a b : Node) (da db : Dev) (m : Msg) (ds : List (Nat × Nat)), 33 ≤ ds.length ∧ (∀ p ∈ ds, 51 ≤ p.2 ∧ p.2 < INT32_MAX) ∧
+example : ∃ (a b : Node) (da db : Dev) (m : Msg) (ds : List (Nat × Nat)), 50 ≤ a.bamGap ∧ 33 ≤ ds.length ∧
+    (∀ p ∈ ds, a.bamGap + 1 ≤ p.2 ∧ p.2 < INT32_MAX) ∧
     a.s.now + totalA ds + 100 < M64 ∧ Lead a da ∧ Lead b db ∧ 2 ≤ a.s.devs.length ∧ 2 ≤ b.s.devs.length ∧ Quiet a.s 0 ∧ Quiet b.s 0 ∧
     (a.tp 0).pend.pgn = 0 ∧ a.s.drv.sent = [] ∧ a.rxq = [] ∧ (b.tp 0).hasPending = false ∧ b.s.drv.sent = [] ∧ b.rxq = [] ∧
     b.out = [] ∧ InfoIdle a 0 ∧ InfoIdle b 0 ∧ (∃ sl ∈ b.slots, sl.free = true) ∧ (∀ sl ∈ b.slots, sl.free = true → sl.reqCTS = 0) ∧
@@ -671,7 +677,7 @@ example : ∃ (a b : Node) (da db : Dev) (m : Msg) (ds : List (Nat × Nat)), 33 
     m.tp = true ∧ 9 ≤ m.len ∧ m.len ≤ 223 ∧ m.len ≤ m.data.length ∧ m.dst = 255 ∧ m.pgn &&& 0xff = 0 ∧ m.pgn ≠ 0 ∧
     m.pgn < 2^24 ∧ n2kToCanId m.prio m.pgn da.source m.dst ≠ 0 := by
   refine ⟨exNodeA, exNodeB, exDev, exDevB,
-    { exMsg with dst := 255 }, List.replicate 33 (7, 60), by decide, by decide, by decide,
+    { exMsg with dst := 255 }, List.replicate 33 (7, 60), by decide, by decide, by decide, by decide,
     exLeadA, exLeadB, by decide, by decide, exQuietA, exQuietB, rfl, rfl,
     rfl, rfl, rfl, rfl, rfl, ⟨rfl, rfl⟩, ⟨rfl, rfl⟩, ⟨{}, by simp [exNodeB, exNode], rfl⟩, ?_, by decide, by decide, by decide, by decide, by decide, by decide,
     by decide, by decide, by decide, by decide⟩
